@@ -114,9 +114,12 @@ def run_case(case):
             xw = torch.ones([1, 2] + size, requires_grad=True)
             o_ = f2(xw)
             i2((o_[0], list(o_[1]))).sum().backward()
-            f2.load_state_dict(fwd.state_dict())
-            i2.load_state_dict(inv.state_dict())
-            fwd, inv = f2, i2
+            try:
+                f2.load_state_dict(fwd.state_dict())
+                i2.load_state_dict(inv.state_dict())
+                fwd, inv = f2, i2
+            except RuntimeError:
+                pass
     if case['k'] % 3 == 0:
         # earlier in the module's life somebody fed it float32 data (rejected or not, it must leave no trace)
         r.label('after_other_precision_call')
